@@ -11,8 +11,8 @@ from common import cps
 ID = "C02"
 LEAN_MODEL_TARGETS = ["drv_c02"]
 LEAN_PROOF_TARGETS = ["PyroProps.C02"]
-AUDIT_FILES = ["PyroModel/Expose.lean", "PyroModel/Gen/C02.lean", "PyroProofs/Expose.lean", "PyroProps/C02.lean"]
-THEOREMS = ["Pyro.C02.C02_served_sound", "Pyro.C02.C02_refused_no_effect_partial", "Pyro.C02.C02_refused_no_effect_not_full",
+AUDIT_FILES = ["PyroModel/PyLib.lean", "PyroModel/Expose.lean", "PyroModel/Gen/C02.lean", "PyroProofs/Expose.lean", "PyroProps/C02.lean"]
+THEOREMS = ["Pyro.C02.C02_translated_private", "Pyro.C02.C02_served_sound", "Pyro.C02.C02_refused_no_effect_partial", "Pyro.C02.C02_refused_no_effect_not_full",
             "Pyro.C02.C02_batch_refused", "Pyro.C02.C02_history_no_memory", "Pyro.C02.C02_history_sound",
             "Pyro.C02.C02_served_complete", "Pyro.C02.C02_metadata_exact",
             "Pyro.C02.C02_expose_marks", "Pyro.C02.C02_inherited_unexposed_refused",
@@ -92,6 +92,22 @@ def _if_chain(stmt):
 
 
 def extract():
+    """extracted facts + the Lean translation of is_private_attribute (regenerated from the source on every run)"""
+    import py2lean
+    common.repo_on_path()
+    from Pyro5 import server
+    text = _extract_facts()
+    trans = py2lean.translate_function(server, open(server.__file__).read(), "is_private_attribute",
+                                       "is_private_attribute", ["str"])
+    marker = "end Pyro.Gen.C02"
+    i = text.rindex(marker)
+    text = text[:i] + trans + text[i:]
+    if "import PyroModel.PyLib" not in text:
+        text = "import PyroModel.PyLib\n" + text
+    return text
+
+
+def _extract_facts():
     common.repo_on_path()
     from Pyro5 import server
     path = server.__file__
